@@ -33,6 +33,15 @@ func init() {
 		Model: "client/backend actors; refChooser = reference implementation of the choice rule as stated in the property"})
 }
 
+func indexOf(l []string, s string) int {
+	for i, x := range l {
+		if x == s {
+			return i
+		}
+	}
+	return -1
+}
+
 // refChooser is the reference for C17.
 type refChooser struct {
 	list       []string
@@ -354,9 +363,9 @@ func runSwitch(r *Run, concurrent bool) {
 
 	if !concurrent {
 		// C17: initial dial sequence and outcome
-		n := initialDials
-		if cl.Phase == "closed" || n == 0 {
-			n = len(dialled)
+		n := initialDials // dials up to the moment the first join completed
+		if n == 0 {
+			n = len(dialled) // never joined: every dial belongs to the initial attempt chain
 		}
 		got := dialled[:n]
 		desc := fmt.Sprintf("try=%v forced=%v host=%q protocol=%d; predicted dials %v (join %q), observed dials %v; client %v kick %q", try, forced, hostSpell, prot, predicted, predJoined, got, clientPhases(w), cl.KickText())
@@ -374,7 +383,7 @@ func runSwitch(r *Run, concurrent bool) {
 			if pl := w.p.PlayerByName("Switcher"); pl != nil && pl.CurrentServer() != nil {
 				cur = pl.CurrentServer().Server().ServerInfo().Name()
 			}
-			if len(cl.JoinGames) == 0 || (cl.Phase != "closed" && cur != predJoined) {
+			if len(cl.JoinGames) == 0 || cl.JoinGames[0]/1000-1 != indexOf(all, predJoined) {
 				r.Fail("wrong-server-joined", "choice", "joined %q; %s", cur, desc)
 				return
 			}
